@@ -1,2 +1,107 @@
-/-! Stub driver root for the Sinex hand model; replaced by the model's line-protocol driver. -/
-def main : IO Unit := IO.println "stub"
+import GeodeVerif.Model.Sinex
+import GeodeVerif.Spec.Sinex
+import GeodeVerif.Num.Wire
+/-!
+# `snxdrv` — line-protocol driver of the SINEX hand model
+
+Request (several stdin lines):
+```
+BEGIN <op> <year> <month> <day> <yday> <hour> <minute> <second> <microsecond>
+S <hex>          -- one per entry of the removal list (`stns` only)
+L <hex>          -- one per line of the input file (hex of the line's bytes, without newline)
+END
+```
+`op` ∈ `stns | vel | zeros | est | mat | sites | wf`.  Response: ONE stdout line.
+* editors: `OK <hex of the raw output text>` or `ERR <ExceptionName>`
+* `est`:   `OK` then per record ` R h:<code> h:<soln> h:<epoch> v…` (`v` = 16 hex digits of the
+  binary64 pattern, or `e` for the initial `''`)
+* `mat`:   `OK` then per record ` R h:<code> h:<soln> v…`
+* `sites`: `OK` then per record ` R h:<site> h:<point> h:<domes> h:<obs> h:<desc> <lon> <lat> v`
+  with an angle as `b:<0|1> n:<deg> n:<min> v`
+* `wf`:    `OK b:<0|1>` — the decidable well-formedness predicate `Spec.wfText` used as the
+  hypothesis of the C18 theorems, evaluated on the file.
+-/
+open Sinex
+
+def hexDigit (n : Nat) : Char := if n < 10 then Char.ofNat (48 + n) else Char.ofNat (87 + n)
+
+def hexOfStr (s : Str) : String :=
+  String.ofList (s.flatMap (fun c => [hexDigit (c.toNat / 16 % 16), hexDigit (c.toNat % 16)]))
+
+def unhexAux : List Char → Str
+  | a :: b :: rest => Char.ofNat (Wire.hexVal a * 16 + Wire.hexVal b) :: unhexAux rest
+  | _ => []
+def unhex (s : String) : Str := unhexAux s.toList
+
+def wireDbl (d : Dbl) : String := PyF.hex d.toFloat
+def wirePyVal : PyVal → String
+  | none => "e"
+  | some d => wireDbl d
+def wireH (s : Str) : String := "h:" ++ hexOfStr s
+def wireDMS (a : DMS) : String :=
+  (if a.positive then "b:1" else "b:0") ++ " n:" ++ toString a.degree ++ " n:" ++ toString a.minute
+    ++ " " ++ wireDbl a.second
+
+def respText : Except Err Str → String
+  | .ok t => "OK " ++ hexOfStr t
+  | .error e => "ERR " ++ e.name
+
+def respEst : Except Err (List EstRec) → String
+  | .error e => "ERR " ++ e.name
+  | .ok rs => "OK" ++ String.join (rs.map fun r =>
+      " R " ++ wireH r.code ++ " " ++ wireH r.soln ++ " " ++ wireH r.epoch ++
+        String.join (r.vals.map fun v => " " ++ wirePyVal v))
+
+def respMat : Except Err (List MatRec) → String
+  | .error e => "ERR " ++ e.name
+  | .ok rs => "OK" ++ String.join (rs.map fun r =>
+      " R " ++ wireH r.code ++ " " ++ wireH r.soln ++ String.join (r.vals.map fun v => " " ++ wireDbl v))
+
+def respSites : Except Err (List SiteRec) → String
+  | .error e => "ERR " ++ e.name
+  | .ok rs => "OK" ++ String.join (rs.map fun r =>
+      " R " ++ wireH r.site ++ " " ++ wireH r.point ++ " " ++ wireH r.domes ++ " " ++ wireH r.obs ++ " " ++
+        wireH r.desc ++ " " ++ wireDMS r.lon ++ " " ++ wireDMS r.lat ++ " " ++ wireDbl r.h)
+
+structure Req where
+  op : String := ""
+  clock : Clock := default
+  sites : List Str := []
+  lines : List Str := []
+
+def answer (r : Req) : String :=
+  let lines := r.lines.reverse
+  let sites := r.sites.reverse
+  match r.op with
+  | "stns" => respText (removeStns lines sites r.clock)
+  | "vel" => respText (removeVelocity lines r.clock)
+  | "zeros" => respText (removeMatrixZeros lines r.clock)
+  | "est" => respEst (readEstimate lines)
+  | "mat" => respMat (readMatrix lines)
+  | "sites" => respSites (readSites lines)
+  | "wf" => "OK " ++ (if Sinex.Spec.wfText lines then "b:1" else "b:0")
+  | _ => "ERR unknown-op"
+
+partial def loop (h out : IO.FS.Stream) (cur : Req) : IO Unit := do
+  let line ← h.getLine
+  if line.isEmpty then return ()
+  let toks := (line.trimAscii.toString.splitOn " ").filter (· ≠ "")
+  match toks with
+  | "BEGIN" :: op :: y :: mo :: d :: yd :: hh :: mi :: s :: us :: _ =>
+    let n (t : String) : Nat := t.toNat?.getD 0
+    loop h out { op := op, clock := ⟨n y, n mo, n d, n yd, n hh, n mi, n s, n us⟩ }
+  | ["S"] => loop h out { cur with sites := [] :: cur.sites }
+  | ["S", x] => loop h out { cur with sites := unhex x :: cur.sites }
+  | ["L"] => loop h out { cur with lines := [] :: cur.lines }
+  | ["L", x] => loop h out { cur with lines := unhex x :: cur.lines }
+  | ["END"] =>
+    out.putStrLn (answer cur)
+    loop h out {}
+  | _ =>
+    out.putStrLn "ERR bad-request-line"
+    loop h out cur
+
+def main : IO Unit := do
+  let out ← IO.getStdout
+  loop (← IO.getStdin) out {}
+  out.flush
